@@ -42,7 +42,43 @@ func c05CliWorld(rc *RunCtx) {
 		shuffle[i], shuffle[j] = shuffle[j], shuffle[i]
 	}
 	cs := sc.scenario(sc.Sort, t, shuffle)
+	// signed increments (histogram only, one run in three): `key<TAB>n` lines counted with -e {1} -e {2}; after the shuffled
+	// body comes a tail of pairs (a +d)(b -d) on keys that are already on the screen. Such a tail changes per-key counts
+	// but neither the total nor the number of groups nor the set of rows: a render that decides from such aggregate
+	// numbers whether anything happened must still show the final counts.
+	signed := sc.Cmd == "histo" && len(sc.Keys) >= 2 && t.WBool(1, 3)
+	final := map[string]int{}
+	if signed {
+		var ls []c3Line
+		for _, l := range cs.Lines {
+			c := 1 + t.W(4)
+			final[l.Raw] += c
+			ls = append(ls, c3Line{Raw: fmt.Sprintf("%s\t%d", l.Raw, c)})
+		}
+		for p := t.WRange(1, 3); p > 0; p-- {
+			a, b := sc.Keys[t.W(len(sc.Keys))], sc.Keys[t.W(len(sc.Keys))]
+			if a == b || final[b] < 1 {
+				continue
+			}
+			d := 1 + t.W(final[b])
+			final[a] += d
+			final[b] -= d
+			ls = append(ls, c3Line{Raw: fmt.Sprintf("%s\t%d", a, d)}, c3Line{Raw: fmt.Sprintf("%s\t-%d", b, d)})
+		}
+		nLines = len(ls)
+		cs = &c3Scenario{Kind: "c13-histo", Lines: ls, Regex: `^([^\t]*)\t(-?\d+)$`, Tpls: []c3Tpl{{{Grp: 1}}, {{Grp: 2}}},
+			Flags: []string{"--nocolor", "--noformat", "--notrim", "histo", "-n", "1000", "--sort", sc.Sort}}
+		rc.Probes["cli-final-screen-signed"]++
+	}
 	v := c3GenVariant(t, &c3Scenario{Lines: make([]c3Line, nLines)}, false)
+	if signed {
+		// one input, so that the tail really arrives last
+		all := make([]int, nLines)
+		for i := range all {
+			all[i] = i
+		}
+		v.Files, v.Order, v.Readers = [][]int{all}, []int{0}, 1
+	}
 	v.Gz = make([]bool, len(v.Files))
 	// lines trickle in: latency on most reads, small batches, small scanner buffer
 	v.LatPm = []int{600, 1000}[t.F(2)]
@@ -51,6 +87,14 @@ func c05CliWorld(rc *RunCtx) {
 	v.Chunk = true
 	v.ScanBuf = []int{3, 8, 17}[t.F(3)]
 	desc := map[string]any{"world": "cli-final-screen", "cmd": sc.Cmd, "sort": sc.Sort, "keys": sc.Keys, "counts": sc.Counts, "variant": v.String()}
+	if signed {
+		var raw []string
+		for _, l := range cs.Lines {
+			raw = append(raw, l.Raw)
+		}
+		desc["signed_increment_lines"] = raw
+		delete(desc, "counts")
+	}
 	rc.Sample = desc
 	o := c3RunVariant(rc, cs, v)
 	if !rc.StdEnd(o.Sim, "termination") {
@@ -66,6 +110,9 @@ func c05CliWorld(rc *RunCtx) {
 	for i, k := range sc.Keys {
 		want[k] = sc.Counts[i]
 		total += sc.Counts[i]
+	}
+	if signed {
+		want, total = final, nLines
 	}
 	got := map[string]int{}
 	var bad []string
